@@ -26,6 +26,7 @@ N = job['N']
 ISIFACE = job['isiface']          # index 0 -> node 1
 ROOTX = job['root_explicit']
 PROP = job['prop']
+PROPS = {'C02', 'C03', 'C15'} if PROP == 'C10' else {PROP}
 evaluations = 0
 mismatches = []
 guard_failures = []
@@ -142,7 +143,7 @@ def valid_lin(w, bases, n, s):
 
 def mism(ctx, what, expected, got):
     mismatches.append({'ctx': ctx, 'what': what, 'expected': expected,
-                       'got': got, 'impl': impl})
+                       'got': got, 'impl': impl, 'case_idx': childlib.CASE[0]})
 
 
 def check(w, bases, obs, ctx):
@@ -153,7 +154,7 @@ def check(w, bases, obs, ctx):
         iro = [w.ident(x) for x in spec.__iro__]
         cons = fget(obs['cons'], n)
         exp = fget(obs['sro'], n)
-        if PROP in ('C02',):
+        if 'C02' in PROPS:
             evaluations += 1
             if set(sro) != set(fget(obs['isoe'], n)):
                 mism(ctx, 'sro-set n=%d' % n, sorted(fget(obs['isoe'], n)),
@@ -184,7 +185,7 @@ def check(w, bases, obs, ctx):
                         if g2 is not spec:
                             mism(ctx, 'providedBy(ob%d) identity' % n, n,
                                  repr(g2))
-        if PROP == 'C03':
+        if 'C03' in PROPS:
             evaluations += 1
             if cons:
                 if sro != exp:
@@ -213,7 +214,7 @@ def check(w, bases, obs, ctx):
                 if r != e2 and [x for x in r if x != 0] != \
                         [x for x in exp if x != 0]:
                     mism(ctx, 'ro.ro n=%d' % n, exp, r)
-        if PROP == 'C15' and w.kind[n] == 'iface':
+        if 'C15' in PROPS and w.kind[n] == 'iface':
             owner = fget(obs['owner'], n)
             invs = fget(obs['invs'], n)
             check_accessors(w, n, spec, owner, invs, sro, ctx)
@@ -349,7 +350,8 @@ def mro_guard(case):
 
 if job['mode'] == 'dag':
     for ci, case in enumerate(job['cases']):
-        if PROP == 'C03':
+        childlib.CASE[0] = ci
+        if 'C03' in PROPS:
             mro_guard(case)
         for build in ('ctor', 'assign'):
             w = World(case['defA'], case['bases'], build)
@@ -361,13 +363,14 @@ if job['mode'] == 'dag':
         del w
 else:
     for ci, case in enumerate(job['cases']):
+        childlib.CASE[0] = ci
         w = World(case['defA'])
         steps = case['steps']
         trail = []
         for si, st in enumerate(steps):
             r = w.apply(st['act'])
             trail.append(st['act'])
-            if st['act']['op'] == 'Get' and PROP == 'C15' and \
+            if st['act']['op'] == 'Get' and 'C15' in PROPS and \
                     st.get('check', True):
                 evaluations += 1
                 if r != st['act']['res']:
